@@ -77,6 +77,23 @@ fn handle(req: &Value, scratch: &Path, n: usize) -> Value {
                 Err(e) => err_val(e),
             }
         }
+        "unzstd" => {
+            // decode a stored log / result file independently of monorail (zstd crate)
+            let path = req["path"].as_str().unwrap_or("");
+            match std::fs::read(path) {
+                Err(e) => json!({"err": {"type": "io", "message": e.to_string()}}),
+                Ok(data) => {
+                    if data.is_empty() {
+                        json!({"ok": "", "empty_file": true})
+                    } else {
+                        match zstd::stream::decode_all(&data[..]) {
+                            Ok(d) => json!({"ok": d.iter().map(|b| format!("{:02x}", b)).collect::<String>()}),
+                            Err(e) => json!({"err": {"type": "zstd", "message": e.to_string()}}),
+                        }
+                    }
+                }
+            }
+        }
         _ => json!({"err": {"type": "harness", "message": format!("unknown fn {}", f)}}),
     };
     if needs_dir {
